@@ -997,6 +997,18 @@ def run_util(case):
         run_pass(P.GroupSingleQuditGatePass(), c0)
     elif case.get('partition'):
         run_pass(P.QuickPartitioner(case['partition']), c0)
+    # blocked input whose block OPERATIONS carry parameters different from the ones stored in their templates:
+    # the same CircuitGate object reused by a second operation with other parameters, then set_params on the outer circuit
+    prng = random.Random(case.get('reparam') or 0)
+    if case.get('dup'):
+        for op in [o for o in c0 if isinstance(o.gate, G.CircuitGate)][:2]:
+            loc = prng.sample(range(c0.num_qudits), op.num_qudits)
+            c0.append(S['Operation'](op.gate, loc, [prng.uniform(-PI, PI) for _ in range(op.gate.num_params)]))
+    if case.get('reparam') and c0.num_params and '"VU"' not in json.dumps(case['circ']):
+        c0.set_params([prng.choice(SPECIAL) if prng.random() < 0.2 else prng.uniform(-PI, PI) for _ in range(c0.num_params)])
+    r.info['blocks_off_template'] = sum(
+        1 for o in c0 if isinstance(o.gate, G.CircuitGate) and o.gate.num_params
+        and not np.allclose(np.array(o.params, dtype=float), np.array(o.gate._circuit.params, dtype=float)))
     c1 = c0.copy()
     data = S['PassData'](c1)
     u0 = U(c0)
@@ -1022,18 +1034,21 @@ def run_util(case):
         chk_exact(r, name, u0, U(c1))
         keys = []
 
-        def tree(d):
+        def tree(circ):
+            # a block's body = its template instantiated with the parameters the OPERATION carries
             out = []
-            for nm, loc, params in d['ops']:
-                if nm == 'BLOCK':
-                    out.append('[B [%s] %s]' % (' '.join(map(str, loc)), tree(params)))
+            for op in circ:
+                loc = ' '.join(map(str, op.location))
+                if isinstance(op.gate, G.CircuitGate):
+                    sub = op.gate._circuit.copy()
+                    sub.set_params(op.params)
+                    out.append('[B [%s] %s]' % (loc, tree(sub)))
                 else:
-                    if nm in ('MPRY', 'MPRZ'):
-                        nm, params = '%sGate_%d_t%d' % (nm, len(loc), params['target']), params['angles']
-                    keys.append([nm, [round(float(p), 9) for p in params]])
-                    out.append('[L %d [%s]]' % (len(keys) - 1, ' '.join(map(str, loc))))
+                    k = opkey(op)
+                    keys.append([k[0], list(k[2])])
+                    out.append('[L %d [%s]]' % (len(keys) - 1, loc))
             return '[' + ' '.join(out) + ']'
-        r.info['model_line'] = 'unfold ' + tree(case['circ'])
+        r.info['model_line'] = 'unfold ' + tree(c0)
         r.info['keys'] = keys
         r.info['impl'] = [[[k[0], list(k[1]), list(k[2])] for k in tl] for tl in timelines(c1)]
         if any(isinstance(op.gate, G.CircuitGate) for op in c1):
@@ -1533,6 +1548,12 @@ for _n in ('CHToCNOTPass', 'CNOTToCHPass', 'CNOTToCYPass', 'CNOTToCZPass', 'CYTo
     THEOREMS_OF[_n] = f'C10_rule_{_n} C10_rule_{_n}_post C10_rules_embedded_upto5 C10_rule_pass_preserves_unitary; translator + correspondence'
 
 
+def blocked_opts(rng):
+    """for passes consuming BLOCKED input: 60% of the cases update the blocked circuit's parameters through the outer circuit
+    (operation parameters != template parameters), 30% reuse one CircuitGate object in a second operation with other parameters"""
+    return dict(reparam=rng.randint(1, 10**6) if rng.random() < 0.6 else None, dup=rng.random() < 0.3)
+
+
 def gen_tasks(ctx, rng, scale=1.0, only=None):
     """the generated case list for the numerical property oracle (whole catalogue)"""
     T = []
@@ -1659,14 +1680,14 @@ def gen_tasks(ctx, rng, scale=1.0, only=None):
         pops = [[rng.randint(0, 6), rng.randint(0, d['n'] - 1)] for _ in range(rng.randint(0, 4))]
         add('util', dict(p='CompressPass', circ=d, pops=pops))
     for _ in range(n(20, 250)):
-        add('util', dict(p='UnfoldPass', circ=gen_block_circ(rng)))
+        add('util', dict(p='UnfoldPass', circ=gen_block_circ(rng), **blocked_opts(rng)))
     for _ in range(n(20, 250)):
         d = gen_block_circ(rng, 4, 1) if rng.random() < 0.3 else rand_circ(rng, rng.randint(1, 5), rng.randint(1, 12))
-        add('util', dict(p='GroupSingleQuditGatePass', circ=d))
+        add('util', dict(p='GroupSingleQuditGatePass', circ=d, **blocked_opts(rng)))
     for _ in range(n(20, 250)):
         nn = rng.randint(1, 5)
         add('util', dict(p='ExtendBlockSizePass', circ=rand_circ(rng, nn, rng.randint(1, 10), ['U3', 'H', 'CX', 'CZ', 'T']),
-                         partition=rng.choice([2, 2, 'group', None]),
+                         partition=rng.choice([2, 2, 'group', None]), **blocked_opts(rng),
                          opts=dict(min=rng.choice([None, 2, 3, 3]), line=rng.random() < 0.3)))
     for _ in range(n(20, 250)):
         add('util', dict(p='FillSingleQuditGatesPass', circ=rand_circ(rng, rng.randint(1, 5), rng.randint(0, 10))))
@@ -1681,10 +1702,10 @@ def gen_tasks(ctx, rng, scale=1.0, only=None):
         for _ in range(rng.randint(0, 2)):
             k = rng.randint(1, min(2, d['n']))
             d['ops'].insert(rng.randint(0, len(d['ops'])), [rng.choice(['VU', 'CU']), rng.sample(range(d['n']), k), dict(seed=rng.randint(0, 999))])
-        add('util', dict(p='BlockConversionPass', circ=d, opts=dict(target=rng.choice(['variable', 'constant']), var=rng.random() < 0.8,
+        add('util', dict(p='BlockConversionPass', circ=d, **blocked_opts(rng), opts=dict(target=rng.choice(['variable', 'constant']), var=rng.random() < 0.8,
                                                                     const=rng.random() < 0.8, cg=rng.random() < 0.8)))
     for _ in range(n(10, 100)):
-        add('util', dict(p='StructureAnalysisPass', circ=rand_circ(rng, rng.randint(2, 5), rng.randint(2, 12), ['U3', 'CX', 'H', 'CZ']),
+        add('util', dict(p='StructureAnalysisPass', **blocked_opts(rng), circ=rand_circ(rng, rng.randint(2, 5), rng.randint(2, 12), ['U3', 'CX', 'H', 'CZ']),
                          partition=rng.randint(2, 3)))
     for nm in ('RecordStatsPass', 'UpdateDataPass', 'SetRandomSeedPass', 'LogPass', 'LogErrorPass'):
         for _ in range(n(4, 30)):
@@ -1813,7 +1834,7 @@ def absorb(ctx, results, stats):
         if res['info'].get('timeout'):
             st['timeouts'] += 1
             ctx.count('timeout:' + name)
-        for k in ('removed', 'substituted', 'src_occurrences'):
+        for k in ('removed', 'substituted', 'src_occurrences', 'blocks_off_template'):
             if res['info'].get(k):
                 ctx.count(f'{k}>0:{name}')
         if res['info'].get('identity_target'):
